@@ -20,9 +20,9 @@ ASSUMPTIONS = [
     'double_sha256 is an uninterpreted functional symbol; ec_point and coordinate formatting are dummies (public fields of an imported private key are not part of these obligations)',
     'expected version bytes / extended-key prefixes are read from bitcoinlib/data/networks.json',
 ]
-BOUNDS = {'quick': 'WIF: every decoded byte string version(1)+secret(32)[+01]+checksum(4) with all bytes symbolic; export for every network; extended keys: every depth 0..255, fingerprint, child index 0..2^32-1, chain code, key bytes; every network x {legacy, p2sh-segwit, segwit} x {single, multisig} x {private, public} prefix of networks.json',
+BOUNDS = {'quick': 'WIF: every decoded byte string version(1)+secret(32)[+01]+checksum(4) with all bytes symbolic; export for every network; extended keys: every depth 0..255, fingerprint, child index 0..2^32-1, chain code, key bytes; every network x {legacy, p2sh-segwit, segwit} x {single, multisig} x {private, public} prefix of networks.json, imported without hints and with the (network, witness type, multisig) of every documented sharer supplied; WIF export also after an earlier wif(prefix=<any byte>) call on the same object',
           'thorough': 'same'}
-OUTSIDE = 'hex / bytes / integer formats beyond their use inside these routes; BIP38 (C15); the base58 digit arithmetic (C11 outside)'
+OUTSIDE = 'hex / bytes / integer formats beyond their use inside these routes; BIP38 encryption / decryption itself (C15; here only that the imported object keeps what decryption returned); the base58 digit arithmetic (C11 outside)'
 
 
 def _mods():
@@ -192,6 +192,12 @@ def h_wif_export(ex, net):
         k.network = K.Network(net)
         k.private_byte, k.secret, k.compressed, k.is_private = secret, shims.IntShim.from_bytes(secret, 'big'), comp, True
         k._wif, k._wif_prefix = None, None
+    hist = ex.choose('history', ['fresh object', 'after wif(prefix=<any version byte>)'])
+    if hist != 'fresh object':
+        other = ex.bytes('other_version', 1)
+        w0 = k.wif(prefix=other if not ex.concrete else bytes(other))
+        body0 = other + secret + (b'\x01' if comp else b'')
+        ex.check(_eq(w0.data if isinstance(w0, B58) else _b58dec(w0), body0 + H(body0)[:4]), 'wif-export-explicit-version-layout')
     w = k.wif()
     data = w.data if isinstance(w, B58) else _b58dec(w)
     body = bytes.fromhex(nets[net]['prefix_wif']) + secret + (b'\x01' if comp else b'')
@@ -319,13 +325,59 @@ def _hd_import_obligations(ex, K, E, NW, route, raw, chk, s, H, is_priv, depth, 
     ex.check(any(k.network.name == kk[0] and k.witness_type == kk[1] for kk in sharers), 'hdkey-import-witness-type')
 
 
+def h_hd_import_hints(ex, route):
+    """importing an extended key while SUPPLYING the metadata its prefix does not pin down - network, witness type,
+    multisig flag of any documented sharer of the prefix - yields a key with exactly that metadata"""
+    K, E, NW = _mods()
+    nets = networks()
+    H = _H['d'] if not ex.concrete else E.double_sha256
+    pfx = hd_prefixes(nets)
+    prefix = ex.choose('prefix', sorted(set(pfx.values())))
+    sharers = sorted([kk for kk, v in pfx.items() if v == prefix], key=repr)
+    nw, wt, ms, is_priv = ex.choose('supplied', sharers)
+    if ms is None or wt is None:
+        ex.cut('prefix row without multisig / witness type')
+    depth, fp, idx, chain = ex.bytes('depth', 1), ex.bytes('fingerprint', 4), ex.bytes('child_index', 4), ex.bytes('chain', 32)
+    if is_priv:
+        sec = ex.bytes('secret', 32)
+        sv = shims.IntShim.from_bytes(sec, 'big')
+        ex.assume(s_and(sv >= 1, sv <= N - 1))
+        keydata = b'\x00' + sec
+    else:
+        keydata = ex.bytes('pub_prefix', 1) + ex.bytes('pub_x', 32)
+        ex.assume(s_or(keydata[0] == 2, keydata[0] == 3))
+    raw = prefix + depth + fp + idx + chain + keydata
+    s = B58(raw + H(raw)[:4]) if not ex.concrete else E.base58encode(bytes(raw) + H(bytes(raw))[:4])
+    try:
+        if route == 'init':
+            k = K.HDKey(s, network=nw, witness_type=wt, multisig=ms)
+        else:
+            k = K.HDKey.from_wif(s, network=nw, multisig=ms)
+    except (K.BKeyError, E.EncodingError, NW.NetworkError):
+        ex.check(False, 'hdkey-import-with-consistent-hints-accepted')
+        return
+    ex.check(k.network.name == nw, 'hdkey-import-keeps-supplied-network')
+    ex.check(k.multisig == ms, 'hdkey-import-keeps-supplied-multisig-flag')
+    if route == 'init':
+        ex.check(k.witness_type == wt, 'hdkey-import-keeps-supplied-witness-type')
+    else:
+        # from_wif takes no witness type: it must pick one documented for (prefix, network, multisig)
+        ex.check(any(kk[0] == nw and kk[2] == ms and kk[1] == k.witness_type for kk in sharers), 'hdkey-import-witness-type-documented-for-hints')
+    ex.check(k.is_private == is_priv, 'hdkey-import-private-public-classification')
+    ex.check(s_and(k.depth == depth[0], _eq(k.parent_fingerprint, fp), k.child_index == shims.IntShim.from_bytes(idx, 'big'),
+                   _eq(k.chain, chain)), 'hdkey-import-metadata')
+
+
 def jobs(tier):
     J = []
     nets = list(networks())
     for route in ('init', 'from_wif'):
         J.append(Job('wif_import_%s' % route, h_wif_import, W=272, setup=setup, params=dict(route=route), budget_s=3000))
         J.append(Job('hd_import_%s' % route, h_hd_import, W=272, setup=setup, params=dict(route=route), budget_s=3000))
+        J.append(Job('hd_import_hints_%s' % route, h_hd_import_hints, W=272, setup=setup, params=dict(route=route), budget_s=3000))
     for net in nets:
         J.append(Job('wif_export_%s' % net, h_wif_export, W=272, setup=setup, params=dict(net=net)))
         J.append(Job('hd_export_%s' % net, h_hd_export, W=272, setup=setup, params=dict(net=net), budget_s=1500))
+    from harness import c15            # the BIP38 import route (decryption itself: C15)
+    J += [j for j in c15.jobs(tier) if j.name.startswith('import_keeps_decrypted_key')]
     return J
